@@ -83,7 +83,7 @@ Definition libs_ok (L : lib) : bool := forallb (lib_ok L) all_entries.
    interpreter and binds the name to a non-module) -- and if so, does the model answer that object? *)
 Definition bare_target (W : world) (L : lib) (s : string) (ust : list frame) : option obj :=
   if negb (is_ident s) then None else
-  match first_unskipped (l_pkg L) ust with
+  match first_binding (l_pkg L) s ust with
   | Some c =>
       match lookup s (f_globals c), f_gname c with
       | Some _, Some m =>
@@ -118,7 +118,7 @@ Fixpoint cover_from (W : world) (L : lib) (h : list op) (bs : list bobs) (i : na
   | OCall e (RStr s) ust :: ht, b :: bt =>
       let '(n, bad) := cover_from W L ht bt (S i) in
       if entry_in_bare e && lib_ok L e then
-        match bare_target W L s ust, first_unskipped (l_pkg L) ust with
+        match bare_target W L s ust, first_binding (l_pkg L) s ust with
         | Some o, Some c =>
             match f_gname c with
             | Some m => (S n, if expect_obs e s m b o then bad else i :: bad)
@@ -238,6 +238,8 @@ Definition fa : frame := user_frame "mod_a" "go" d_mod_a [("v", a_str)].
 Definition fb : frame := user_frame "mod_b" "go" d_mod_b [("v", a_str)].
 Definition fc : frame := user_frame "mod_c" "go" d_mod_c [("v", a_str)].
 Definition fd : frame := user_frame "mod_d" "go" d_mod_d [("v", a_str)].
+(* a helper module that binds none of the names: references are issued through it on behalf of its callers *)
+Definition fh : frame := user_frame "mod_h" "relay" [("typelib", OMod "typelib")] [("ref", a_str)].
 Definition fmain : frame := user_frame "__main__" "<module>" [] [].
 (* a function of mod_b with a local variable called Node, bound to mod_a's class *)
 Definition fb_local : frame := user_frame "mod_b" "run" d_mod_b [("Node", cls 1 "mod_a")].
